@@ -361,7 +361,7 @@ def main(argv=None):
         return 2
     idxs = [i for i, p in enumerate(parts) if not args.only or args.only in p.name]
     jobs = [(modname, ctxd, i) for i in idxs]
-    if corpus_files(prop) and not args.only:
+    if corpus_files(prop) and (not args.only or args.only == "corpus"):
         jobs.insert(0, (modname, ctxd, -1))
     results = run_jobs(jobs, args.jobs, mod, ctx)
     results.sort(key=lambda d: str(d.get("part")))
